@@ -35,10 +35,11 @@ pub fn check_pair(p: &Pair, obs: &Obs) -> CheckResult {
     let (ds, cs) = (mnemonic::split_suffix(def).1, mnemonic::split_suffix(cand).1);
     obs.label_if(ds.len() >= 4 && cs.len() >= 4, "both suffixes of four or more digits");
     obs.label_if(ds.len() >= 9 || cs.len() >= 9, "a suffix of nine or more digits");
+    obs.label_if(def.contains(&b'_'), "definition with an underscore");
     match verdict {
         Verdict::Match => obs.label("positive"),
         Verdict::NoMatch => obs.label(if shares { "negative sharing a prefix" } else { "negative" }),
-        Verdict::NoClaim => obs.label("no claim (leading-zero suffix)"),
+        Verdict::NoClaim => obs.label("no claim (leading-zero suffix / short form plus boundary underscore)"),
     }
     let want = match verdict {
         Verdict::Match => true,
@@ -97,7 +98,7 @@ fn small_defs() -> Vec<String> {
         all
     }
     for u in words(b"AB", 1, 3) {
-        for l in words(b"ab", 0, 2) {
+        for l in words(b"ab_", 0, 2) {
             for s in ["", "1", "2", "10"] {
                 out.push(format!("{u}{l}{s}"));
             }
@@ -138,8 +139,9 @@ enum SuffixVariant {
 
 fn def_strategy() -> impl Strategy<Value = String> {
     (
-        prop_oneof![5 => "[A-Z]{1,6}", 1 => "[A-Z][0-9]{1,2}[A-Z]{1,2}", 1 => "[A-Z]{1,2}[0-9][A-Z]"],
-        "[a-z]{0,6}",
+        prop_oneof![10 => "[A-Z]{1,6}", 2 => "[A-Z][0-9]{1,2}[A-Z]{1,2}", 2 => "[A-Z]{1,2}[0-9][A-Z]", 1 => "[A-Z]{1,3}_[A-Z]{1,2}"],
+        // the optional tail: letters, and the underscore 488.2 allows in a mnemonic (at the boundary, inside, at the end)
+        prop_oneof![12 => "[a-z]{0,6}", 1 => "_[a-z]{1,4}", 1 => "[a-z]{1,3}_[a-z]{1,2}", 1 => "_{1,2}"],
         prop_oneof![
             3 => Just(None),
             2 => (1u32..4).prop_map(Some),
